@@ -200,6 +200,7 @@ class Prop:
                              "dispatch": "ui" if (deferred and c.random() < 0.6) else "same"})
         nops = c.choice([4, 8, 12, 18, 24, 30])
         nested_rate = c.choice([0.0, 0.1, 0.3, 0.6])
+        gc_mode = c.choice(["explicit", "explicit", "explicit", "storm"])
         ops = []
         for _ in range(nops):
             x = r.random()
@@ -246,7 +247,7 @@ class Prop:
             for _ in range(c.randint(1, 4)):
                 term.append(G.gen_graph_op(c, npool))
         return {"prop": ID, "seed": seed,
-                "config": {"npool": npool, "handlers": handlers},
+                "config": {"npool": npool, "handlers": handlers, "gc_mode": gc_mode},
                 "ops": ops + term}
 
     # ------------------------------------------------------------------ execution
@@ -260,6 +261,13 @@ class Prop:
         sched = Sched(env)
         self._sched = sched
         sched.install()
+        self._gc_thresh = gc.get_threshold()
+        if cfg.get("gc_mode") == "storm":
+            # cyclic GC at every opportunity (on CPython 3.12 collections happen only on
+            # the eval breaker, i.e. at byte-code boundaries: this visits all of them)
+            gc.enable()
+            gc.set_threshold(1, 1, 1)
+            env.probe("gc-storm-run")
         routed = []
         oapi.push_exception_handler(lambda ev: routed.append(ev), reraise_exceptions=False)
         self._pushed = True
@@ -801,6 +809,10 @@ class Prop:
 
     def cleanup(self):
         from traits.observation import api as oapi
+        if getattr(self, "_gc_thresh", None) is not None:
+            gc.set_threshold(*self._gc_thresh)
+            gc.disable()
+            self._gc_thresh = None
         s = getattr(self, "_sched", None)
         if s is not None:
             s.uninstall()
